@@ -280,6 +280,15 @@ class SuperSpeedStreamInEndpoint(Elaboratable):
                     m.d.ss += erdy_required.eq(0)
                     m.next = "WAIT_TO_SEND"
 
+                # The host is free to poll us again without waiting for our ERDY [USB3.2r1: 8.10.1]. If it does
+                # so while we're still asking for one, we no longer need it: we have data, so we answer right away.
+                with m.If(in_token_received):
+                    m.d.ss += [
+                        erdy_required        .eq(0),
+                        last_packet_was_zlp  .eq(0)
+                    ]
+                    m.next = "SEND_PACKET"
+
 
             # WAIT_TO_SEND -- we now have at least a buffer full of data to send; we'll
             # need to wait for an IN token to send it.
